@@ -14,9 +14,11 @@ from __future__ import annotations
 
 import itertools
 import logging
+import os
 import pickle  # noqa: S403
 import re
 import sys
+import tempfile
 import warnings
 from abc import abstractmethod
 from importlib.metadata import version
@@ -383,8 +385,7 @@ def perform_cached_doit(
         f"Cached expression file {filename} not found, performing doit()..."
     )
     unfolded_expr = unevaluated_expr.doit()
-    with open(filename, "wb") as f:
-        pickle.dump((unevaluated_expr, unfolded_expr), f)
+    _dump_cached_expression(filename, unevaluated_expr, unfolded_expr)
     return unfolded_expr
 
 
@@ -408,3 +409,17 @@ def _load_cached_expression(filename: Path, key_expr: sp.Expr) -> sp.Expr | None
     if stored_key != key_expr:
         return None
     return stored_expr
+
+
+def _dump_cached_expression(
+    filename: Path, key_expr: sp.Expr, unfolded_expr: sp.Expr
+) -> None:
+    """Write to a temporary file first, so that the cache file is never partial."""
+    fd, tmp_name = tempfile.mkstemp(dir=filename.parent, suffix=".tmp")
+    try:
+        with os.fdopen(fd, "wb") as f:
+            pickle.dump((key_expr, unfolded_expr), f)
+        os.replace(tmp_name, filename)
+    except BaseException:
+        Path(tmp_name).unlink(missing_ok=True)
+        raise
